@@ -2,7 +2,7 @@
    (coq/Gen/Dists.v).  Spec_* are the specification functions of the SciPy / NumPy primitives (trusted base). *)
 From Coq Require Import Reals Lra List.
 From Coquelicot Require Import Coquelicot.
-From PG Require Import Base.Ops Gen.Dists Proofs.C06.
+From PG Require Import Base.Ops Gen.Dists Proofs.C06 Proofs.C06Score.
 Open Scope R_scope.
 
 (* unit deviance is non-negative and zero exactly at y = mu (unscaled; the scaled one divides by scale > 0) *)
@@ -43,6 +43,17 @@ Theorem C06_dev_is_loglik_gap :
   (forall sc y mu, 0 < sc -> 0 < y -> 0 < mu -> Gen_InvGaussDist_deviance0 false sc 1 y mu = 2 * sc * (Gen_InvGaussDist_log_pdf sc 1 1 y y - Gen_InvGaussDist_log_pdf sc 1 1 y mu)).
 Proof. exact (conj normal_loglik_gap (conj binom_loglik_gap (conj pois_loglik_gap (conj gamma_loglik_gap ig_loglik_gap)))). Qed.
 Print Assumptions C06_dev_is_loglik_gap.
+
+(* score identity: d log-density / d mu = (y - mu) / (scale * V(mu)) -- variance function, deviance and log-density describe
+   one exponential-dispersion family, and a zero of the PIRLS score equations is a stationary point of the reported likelihood *)
+Theorem C06_score_identity :
+  (forall sc y mu, 0 < sc -> is_derive (fun m => Gen_NormalDist_log_pdf sc 1 1 y m) mu ((y - mu) / (sc * Gen_NormalDist_V0 1 mu))) /\
+  (forall L y mu, 0 <= y <= L -> 0 < mu < L -> is_derive (fun m => Gen_BinomialDist_log_pdf 1 L 1 y m) mu ((y - mu) / (1 * Gen_BinomialDist_V0 L mu))) /\
+  (forall y mu, 0 <= y -> 0 < mu -> is_derive (fun m => Gen_PoissonDist_log_pdf 1 1 1 y m) mu ((y - mu) / (1 * Gen_PoissonDist_V0 1 mu))) /\
+  (forall sc y mu, 0 < sc -> 0 < y -> 0 < mu -> is_derive (fun m => Gen_GammaDist_log_pdf sc 1 1 y m) mu ((y - mu) / (sc * Gen_GammaDist_V0 1 mu))) /\
+  (forall sc y mu, 0 < sc -> 0 < y -> 0 < mu -> is_derive (fun m => Gen_InvGaussDist_log_pdf sc 1 1 y m) mu ((y - mu) / (sc * Gen_InvGaussDist_V0 1 mu))).
+Proof. exact (conj normal_score (conj binom_score (conj pois_score (conj gamma_score ig_score)))). Qed.
+Print Assumptions C06_score_identity.
 
 (* observation weights multiply the deviance and divide the variance function (the generated decorator wrappers) *)
 Theorem C06_weights : forall b sc L w y mu,
